@@ -96,6 +96,11 @@ def check_property(prop, tier, repo, record=False, verbose=False):
         hit = None
         for k in kf:
             if k["obligation"] == o.name:
+                # a finding may pin down WHICH refutations it covers (substrings of the refuting paths' notes, e.g. the
+                # exception class): a refutation of the same obligation that matches none of them is a new violation
+                pins = k.get("note_any")
+                if pins and not all(any(p in (v.note or "") for p in pins) for v in o.vcs if v.status == "sat"):
+                    continue
                 hit = k
                 break
         if hit is not None:
